@@ -176,6 +176,7 @@ pub fn laps() -> Vec<Lap> {
         Lap { three_readers_every: 0, name: "bucket-delete-with-reader-held-for-a-stretch", reopen_every: 0, reader_stretch: Some((500, 25)), kind: 2 },
         Lap { three_readers_every: 0, name: "fill-320-keys-delete-all-reopen (free list longer than one page)", reopen_every: 2, reader_stretch: None, kind: 3 },
         Lap { three_readers_every: 0, name: "fill-320-keys-delete-all-reopen-every-7", reopen_every: 7, reader_stretch: None, kind: 3 },
+        Lap { three_readers_every: 0, name: "fixed-size-overwrite-reopen-every-997 (thorough: 70 000 transactions, ids beyond 2^16)", reopen_every: 997, reader_stretch: None, kind: 0 },
         Lap { three_readers_every: 0, name: "modify-delete-recreate-refill-a-bucket-in-one-transaction", reopen_every: 50, reader_stretch: None, kind: 4 },
         Lap { three_readers_every: 0, name: "long-keys-overwrite (multi-page branch and leaf pages)", reopen_every: 0, reader_stretch: None, kind: 5 },
         Lap { three_readers_every: 0, name: "long-keys-overwrite-reopen-every-40", reopen_every: 40, reader_stretch: None, kind: 5 },
@@ -242,7 +243,7 @@ pub fn run_lap(lap: &Lap, n: usize, path: &str) -> Value {
     let mut reader_closed_at: Option<(usize, u64)> = None;
     let mut file_len_max = 0u64;
     let check_every = 1usize;
-    let n = if lap.kind == 3 { n / 5 } else { n };
+    let n = if lap.kind == 3 { n / 5 } else if lap.name.contains("beyond 2^16") && n >= 20_000 { 70_000 } else { n };
     for i in 0..n {
         if lap.reopen_every > 0 && i % lap.reopen_every == lap.reopen_every - 1 && r.num_readers() == 0 {
             r.step(&Action::Reopen, &Oracles::NONE);
